@@ -1,7 +1,7 @@
 ---------------------------- MODULE SyltAnnotFam ----------------------------
 (***************************************************************************)
 (* C08, second universe: programs built around the ANNOTATION TYPES that   *)
-(* SyltGen's pairwise-nesting universe lacks.  Three families, all given   *)
+(* SyltGen's pairwise-nesting universe lacks.  Five families, all given    *)
 (* as SyltAst trees, all well-typed by construction (type-directed, like   *)
 (* SyltGen's templates):                                                   *)
 (*                                                                         *)
@@ -35,6 +35,11 @@
 (*    annotated `fn ..` or - where the value is pure - `pu ..`, constant   *)
 (*    or mutable, in every context; pure values are also called from a     *)
 (*    pure function, so the purity the annotation states matters.          *)
+(*                                                                         *)
+(* L  annotations naming types declared LATER in the file, in every order  *)
+(*    of {annotated definition, the type, another type mentioning it}.     *)
+(* M  QUALIFIED type names in the annotations of multi-file projects.      *)
+(*    (Both are described where they are defined, further down.)           *)
 (*                                                                         *)
 (* SyltAnnot defines what a site is and which subsets are erased; the      *)
 (* expectation is the same as for the first universe: every variant is     *)
@@ -447,11 +452,205 @@ F2Prog(c, first) ==
 F2Case(c, first) == [id |-> [o |-> "F:generic2", pos |-> 0, i |-> first, h |-> c], tops |-> F2Prog(c, first), pre |-> Len(Decls) + Len(FPrelude)]
 F2Keys == { <<"F2", c, first>> : c \in Contexts, first \in Inst }
 
-(* the case [id, tops, pre] of a key; pre = number of leading top-level nodes that are the same in every program of
+---------------------------------------------------------------------------
+(* Family L: annotations whose types are declared LATER in the file.
+   Three top-level items in every order: D - an annotated definition whose annotation names Handler (or Slot) and
+   whose value mentions neither ([], Opt.Non); T - `Handler :: blob { run: fn int -> int }`; U - `Slot`, a blob or enum
+   that mentions Handler through a tuple / list / fn / generic-argument position.  `fire` calls Handler's fn field
+   THROUGH a Slot, which needs Slot's field to have been resolved to the real Handler; fire and start are written before
+   or after the three.  Types may be used before their declaration, and an annotation must never change what is
+   accepted elsewhere: whatever order, whichever sites are erased - accepted, same bytes. *)
+LBox == BlobG("Box", <<"T">>, <<FD("v", TGen("T"))>>)
+LOpt == EnumG("Opt", <<"T">>, <<VD1("Some", TGen("T")), VD0("Non")>>)
+THandler == TName("Handler")
+TSlot == TName("Slot")
+LT == BlobD("Handler", <<FD("run", TII)>>)
+
+Mentions == {"tup", "list", "fnret", "garg", "tuplist", "nest", "enum", "opt"}
+HI == TTuple(<<THandler, TInt>>)
+LU(m) ==
+  CASE m = "tup"     -> BlobD("Slot", <<FD("entry", HI)>>)
+    [] m = "list"    -> BlobD("Slot", <<FD("entry", TList(THandler))>>)
+    [] m = "fnret"   -> BlobD("Slot", <<FD("entry", TFn(<<>>, THandler))>>)
+    [] m = "garg"    -> BlobD("Slot", <<FD("entry", TApp("Box", <<THandler>>))>>)
+    [] m = "tuplist" -> BlobD("Slot", <<FD("entry", TList(HI))>>)
+    [] m = "nest"    -> BlobD("Slot", <<FD("entry", TTuple(<<HI, TInt>>))>>)
+    [] m = "enum"    -> EnumD("Slot", <<VD1("Full", HI), VD0("Empty")>>)
+    [] m = "opt"     -> BlobD("Slot", <<FD("entry", TApp("Opt", <<THandler>>))>>)
+
+SlotVal(m, h) ==
+  LET hi == Tup(<<h, I(0)>>)  slot(e) == BlobL("Slot", <<FI("entry", e)>>) IN
+  CASE m = "tup"     -> slot(hi)
+    [] m = "list"    -> slot(Lst(<<h>>))
+    [] m = "fnret"   -> slot(Fn(<<>>, TNone, <<Ex(h)>>))
+    [] m = "garg"    -> slot(BlobL("Box", <<FI("v", h)>>))
+    [] m = "tuplist" -> slot(Lst(<<hi>>))
+    [] m = "nest"    -> slot(Tup(<<hi, I(0)>>))
+    [] m = "enum"    -> Var1("Slot", "Full", hi)
+    [] m = "opt"     -> slot(Var1("Opt", "Some", h))
+
+(* s.entry ... .run(x): the call that needs the real Handler behind the Slot *)
+Through(m, s, x, b) ==
+  LET ent == Fld(s, "entry")  run(h) == Call(Fld(h, "run"), <<x>>) IN
+  CASE m = "tup"     -> run(Idx(ent, 0))
+    [] m = "list"    -> CaseT(Call(Std("list.last"), <<ent>>), <<CArmB("Just", b, <<Ex(run(V(b)))>>), CArm("None", <<Ex(I(0))>>)>>)
+    [] m = "fnret"   -> run(Call(ent, <<>>))
+    [] m = "garg"    -> run(Fld(ent, "v"))
+    [] m = "tuplist" -> CaseT(Call(Std("list.last"), <<ent>>), <<CArmB("Just", b, <<Ex(run(Idx(V(b), 0)))>>), CArm("None", <<Ex(I(0))>>)>>)
+    [] m = "nest"    -> run(Idx(Idx(ent, 0), 0))
+    [] m = "enum"    -> CaseT(s, <<CArmB("Full", b, <<Ex(run(Idx(V(b), 0)))>>), CArm("Empty", <<Ex(I(0))>>)>>)
+    [] m = "opt"     -> CaseT(ent, <<CArmB("Some", b, <<Ex(run(V(b)))>>), CArm("Non", <<Ex(I(0))>>)>>)
+
+LFire == 1040
+LD == 1041
+LFireDef(m) == DefN(LFire, "const", TNone, Fn(<<PK(601, TSlot), P(602, TInt)>>, TInt, <<Ex(Through(m, V(601), V(602), 603))>>), "fire")
+
+(* the annotated definition D: kind dk, annotation form af; [def, use] *)
+LForms == {"list", "opt", "tuplist", "ulist", "uopt", "boxlist"}
+LAnn(af) ==
+  CASE af = "list" -> TList(THandler) [] af = "opt" -> TApp("Opt", <<THandler>>) [] af = "tuplist" -> TList(HI)
+    [] af = "ulist" -> TList(TSlot) [] af = "uopt" -> TApp("Opt", <<TSlot>>) [] af = "boxlist" -> TList(TApp("Box", <<THandler>>))
+LEmpty(af) == IF af \in {"opt", "uopt"} THEN Var0("Opt", "Non") ELSE Lst(<<>>)
+LKinds == {"gvar", "gmut", "gfnret", "gfnpar", "local"}
+LDef(dk, af) ==
+  LET A == LAnn(af)  e == LEmpty(af) IN
+  CASE dk = "gvar"   -> [def |-> DefN(LD, "const", A, e, "fired"), use |-> <<Print(V(LD))>>]
+    [] dk = "gmut"   -> [def |-> DefN(LD, "mut", A, e, "fired"), use |-> <<Print(V(LD))>>]
+    [] dk = "gfnret" -> [def |-> DefN(LD, "const", TNone, Fn(<<>>, A, <<Ex(e)>>), "mkf"), use |-> <<Print(Call(V(LD), <<>>))>>]
+    [] dk = "gfnpar" -> [def |-> DefN(LD, "const", TNone, Fn(<<P(611, A)>>, TNone, <<Ex(I(0))>>), "takef"), use |-> <<Print(Call(V(LD), <<e>>))>>]
+    [] dk = "local"  -> [def |-> DefN(LD, "const", TNone, Fn(<<>>, TVoid, <<DefC(612, A, e), Print(V(612))>>), "early"), use |-> <<Ex(Call(V(LD), <<>>))>>]
+
+LOrders == {"DTU", "DUT", "TDU", "TUD", "UDT", "UTD"}
+LItem(ch, m, d) == IF ch = "D" THEN d.def ELSE IF ch = "T" THEN LT ELSE LU(m)
+LProg(m, dk, af, ord, rest) ==
+  LET d == LDef(dk, af)
+      three == <<LItem(SubSeq(ord, 1, 1), m, d), LItem(SubSeq(ord, 2, 2), m, d), LItem(SubSeq(ord, 3, 3), m, d)>>
+      start == DefN(FStart, "const", TNone, Fn(<<>>, TVoid,
+                 <<DefC(620, TNone, BlobL("Handler", <<FI("run", Fn(<<P(621, TInt)>>, TInt, <<Ex(Bin("+", V(621), I(1)))>>))>>)),
+                   Print(Call(V(LFire), <<SlotVal(m, V(620)), I(41)>>))>> \o d.use), "start")
+      fs == <<LFireDef(m), start>> IN
+  <<LBox, LOpt>> \o (IF rest = "before" THEN fs ELSE <<>>) \o three \o (IF rest = "after" THEN fs ELSE <<>>)
+
+LCase(m, dk, af, ord, rest) ==
+  [id |-> [o |-> "L:" \o m \o ":" \o af, pos |-> 0, i |-> dk, h |-> ord \o ":" \o rest], tops |-> LProg(m, dk, af, ord, rest), pre |-> 0]
+LKeys == { <<"L", m, dk, af, ord, rest>> : m \in Mentions, dk \in LKinds, af \in LForms, ord \in LOrders, rest \in {"before", "after"} }
+
+---------------------------------------------------------------------------
+(* Family M: QUALIFIED type names in the annotations of multi-file programs.
+   Project: main.sy; pal.sy and sub/inner.sy (the same leaf module: enum Color, generic blob Box, blob Pt and functions
+   making / reading them); shapes.sy (`use pal`, `use pal as pp`, `from pal use Color, Box, Pt`); sub/exports.sy
+   (`use inner`); and a HOST file in which the annotated unit is written: main.sy itself, mid.sy (imported by main) or
+   sub/host.sy.  A ROUTE is the way the host names the leaf module's types: namespace, alias, two-step chains through
+   another file's namespace (or its alias), a type the other file from-imported (re-export), from-import with and
+   without alias, folder (exports.sy) chains, path imports, rooted paths.  The unit is Unit of family G: the type in
+   one of 9 forms at one of 11 sites.  The files other than the host have no sites. *)
+Raw(text) == [k |-> "raw", text |-> text]
+NoTy(b) == P(b, TNone)
+LeafTops == <<
+  EnumD("Color", <<VD0("Red"), VD0("Green"), VD1("Rgb", TTuple(<<TInt, TInt, TInt>>))>>),
+  BlobG("Box", <<"T">>, <<FD("v", TGen("T"))>>),
+  BlobD("Pt", <<FD("x", TInt), FD("y", TInt)>>),
+  DefN(701, "const", TNone, Fn(<<NoTy(1)>>, TNone, <<Ex(BlobL("Box", <<FI("v", V(1))>>))>>), "mkbox"),
+  DefN(702, "const", TNone, Fn(<<>>, TNone, <<Ex(Var0("Color", "Green"))>>), "default"),
+  DefN(703, "const", TNone, Fn(<<>>, TNone, <<Ex(BlobL("Pt", <<FI("x", I(0)), FI("y", I(0))>>))>>), "origin"),
+  DefN(704, "const", TNone, Fn(<<NoTy(2)>>, TNone,
+       <<Ex(CaseT(V(2), <<CArm("Red", <<Ex(St("red"))>>), CArm("Green", <<Ex(St("green"))>>), CArmB("Rgb", 3, <<Ex(St("rgb"))>>)>>))>>), "name")
+>>
+ShapesTops == <<
+  Raw("use pal"), Raw("use pal as pp"), Raw("from pal use Color, Box, Pt"),
+  BlobD("Shape", <<FD("sides", TInt), FD("color", TName("pal.Color"))>>),
+  DefN(711, "const", TNone, Fn(<<>>, TNone, <<Ex(BlobL("Shape", <<FI("sides", I(3)), FI("color", Call(Std("pal.default"), <<>>))>>))>>), "triangle")
+>>
+ExportsTops == << Raw("use inner"), BlobD("Tag", <<FD("n", TInt)>>) >>
+
+RootRoutes == {"one", "alias", "chain", "chainin", "chainas", "mixed", "reexp", "from", "fromas",
+               "folder", "folderas", "path", "pathas", "rooted"}
+SubRoutes == {"srel", "sroot", "schain", "sfolder"}
+(* [imports, tp, fp]: the import lines of the host, the prefix of a type name, the prefix of a function name;
+   fromas renames the types to P<name> *)
+Route(r) ==
+  CASE r = "one"      -> [imports |-> <<"use pal">>, tp |-> "pal.", fp |-> "pal."]
+    [] r = "alias"    -> [imports |-> <<"use pal as q">>, tp |-> "q.", fp |-> "q."]
+    [] r = "chain"    -> [imports |-> <<"use shapes">>, tp |-> "shapes.pal.", fp |-> "shapes.pal."]
+    [] r = "chainin"  -> [imports |-> <<"use shapes">>, tp |-> "shapes.pp.", fp |-> "shapes.pp."]
+    [] r = "chainas"  -> [imports |-> <<"use shapes as sh">>, tp |-> "sh.pal.", fp |-> "sh.pal."]
+    [] r = "mixed"    -> [imports |-> <<"use shapes", "use pal as q">>, tp |-> "shapes.pal.", fp |-> "q."]
+    [] r = "reexp"    -> [imports |-> <<"use shapes", "use pal as vv">>, tp |-> "shapes.", fp |-> "vv."]
+    [] r = "from"     -> [imports |-> <<"from pal use Color, Box, Pt", "use pal as vv">>, tp |-> "", fp |-> "vv."]
+    [] r = "fromas"   -> [imports |-> <<"from pal use Color as PColor, Box as PBox, Pt as PPt", "use pal as vv">>, tp |-> "P", fp |-> "vv."]
+    [] r = "folder"   -> [imports |-> <<"use sub/">>, tp |-> "sub.inner.", fp |-> "sub.inner."]
+    [] r = "folderas" -> [imports |-> <<"use sub/ as fo">>, tp |-> "fo.inner.", fp |-> "fo.inner."]
+    [] r = "path"     -> [imports |-> <<"use sub/inner">>, tp |-> "inner.", fp |-> "inner."]
+    [] r = "pathas"   -> [imports |-> <<"use sub/inner as si">>, tp |-> "si.", fp |-> "si."]
+    [] r = "rooted"   -> [imports |-> <<"use /sub/inner as ri">>, tp |-> "ri.", fp |-> "ri."]
+    [] r = "srel"     -> [imports |-> <<"use inner">>, tp |-> "inner.", fp |-> "inner."]
+    [] r = "sroot"    -> [imports |-> <<"use /pal">>, tp |-> "pal.", fp |-> "pal."]
+    [] r = "schain"   -> [imports |-> <<"use /shapes">>, tp |-> "shapes.pal.", fp |-> "shapes.pal."]
+    [] r = "sfolder"  -> [imports |-> <<"use /sub/ as up">>, tp |-> "up.inner.", fp |-> "up.inner."]
+
+MForms == {"color", "variant", "pt", "boxbare", "boxapp", "boxlit", "listcolor", "tup", "boxcolor"}
+(* [A, v, use(e)] of a form under a route *)
+MAnn(rt, f) ==
+  LET ty(n) == rt.tp \o n  col == TName(ty("Color")) IN
+  CASE f \in {"color", "variant"} -> col
+    [] f = "pt" -> TName(ty("Pt"))
+    [] f = "boxbare" -> TName(ty("Box"))
+    [] f = "boxapp" -> TApp(ty("Box"), <<TInt>>)
+    [] f = "boxlit" -> TApp(ty("Box"), <<TStr>>)
+    [] f = "listcolor" -> TList(col)
+    [] f = "tup" -> TTuple(<<TName(ty("Pt")), col>>)
+    [] f = "boxcolor" -> TApp(ty("Box"), <<col>>)
+MVal(rt, f) ==
+  LET fun(n, args) == Call(Std(rt.fp \o n), args)  ty(n) == rt.tp \o n IN
+  CASE f = "color" -> fun("default", <<>>)
+    [] f = "variant" -> Var0(ty("Color"), "Red")
+    [] f = "pt" -> fun("origin", <<>>)
+    [] f \in {"boxbare", "boxapp"} -> fun("mkbox", <<I(1)>>)
+    [] f = "boxlit" -> BlobL(ty("Box"), <<FI("v", St("s"))>>)
+    [] f = "listcolor" -> Lst(<<fun("default", <<>>)>>)
+    [] f = "tup" -> Tup(<<fun("origin", <<>>), fun("default", <<>>)>>)
+    [] f = "boxcolor" -> fun("mkbox", <<fun("default", <<>>)>>)
+MUse(rt, f, e, b) ==
+  LET name(x) == Call(Std(rt.fp \o "name"), <<x>>) IN
+  CASE f \in {"color", "variant"} -> <<Print(name(e))>>
+    [] f = "pt" -> <<Print(Bin("+", Fld(e, "x"), I(1)))>>
+    [] f \in {"boxbare", "boxapp"} -> <<Print(Bin("+", Fld(e, "v"), I(1)))>>
+    [] f = "boxlit" -> <<Print(Bin("+", Fld(e, "v"), St("s")))>>
+    [] f = "listcolor" -> <<Ex(Call(Std("for_each"), <<e, Fn(<<NoTy(b + 4)>>, TVoid, <<Print(name(V(b + 4)))>>)>>))>>
+    [] f = "tup" -> <<Print(Bin("+", Fld(Idx(e, 0), "x"), I(1))), Print(name(Idx(e, 1)))>>
+    [] f = "boxcolor" -> <<Print(name(Fld(e, "v")))>>
+
+MHosts == {"main", "mid"}
+MRun == 720
+RECURSIVE RawAll(_, _)
+RawAll(lines, i) == IF i > Len(lines) THEN <<>> ELSE <<Raw(lines[i])>> \o RawAll(lines, i + 1)
+MProj(r, f, s, host) ==
+  LET rt == Route(r)
+      use(e) == MUse(rt, f, e, 100)
+      u == Unit(s, MAnn(rt, f), MVal(rt, f), use, FALSE, 100)
+      imports == RawAll(rt.imports, 1)
+      lib == <<[path |-> "pal.sy", tops |-> LeafTops], [path |-> "sub/inner.sy", tops |-> LeafTops],
+               [path |-> "shapes.sy", tops |-> ShapesTops], [path |-> "sub/exports.sy", tops |-> ExportsTops]>>
+      runf == DefN(MRun, "const", TNone, Fn(<<>>, TVoid, u.body), "run") IN
+  CASE host = "main" -> [tops |-> imports \o u.globals \o <<StartDef(u.body)>>, files |-> lib]
+    [] host = "mid"  -> [tops |-> <<Raw("use mid"), StartDef(<<Ex(Call(Std("mid.run"), <<>>))>>)>>,
+                         files |-> <<[path |-> "mid.sy", tops |-> imports \o u.globals \o <<runf>>]>> \o lib]
+    [] host = "sub"  -> [tops |-> <<Raw("use sub/host"), StartDef(<<Ex(Call(Std("host.run"), <<>>))>>)>>,
+                         files |-> <<[path |-> "sub/host.sy", tops |-> imports \o u.globals \o <<runf>>]>> \o lib]
+
+MCase(r, f, s, host) ==
+  LET pr == MProj(r, f, s, host) IN
+  [id |-> [o |-> "M:" \o r \o ":" \o f, pos |-> 0, i |-> s, h |-> host], tops |-> pr.tops, pre |-> 0, files |-> pr.files]
+MKeys == { <<"M", r, f, s, host>> : r \in RootRoutes, f \in MForms, s \in SiteKinds, host \in MHosts }
+         \cup { <<"M", r, f, s, "sub">> : r \in SubRoutes, f \in MForms, s \in SiteKinds }
+
+(* the case [id, tops, pre (, files)] of a key; tops = main.sy, files = the other files of a multi-file project; pre = number of leading top-level nodes that are the same in every program of
    the family (their sites are the prelude sites of SyltAnnot!Masks) *)
 CaseOf(t) ==
   CASE t[1] = "G" -> GCase(t[2], t[3], t[4], t[5], t[6], t[7], t[8], t[9], t[10], t[11])
     [] t[1] = "S" -> SCase(t[2], t[3], t[4])
     [] t[1] = "F" -> FCase(t[2], t[3] = "T", t[4] = "T", t[5] = "T", t[6])
     [] t[1] = "F2" -> F2Case(t[2], t[3])
+    [] t[1] = "L" -> LCase(t[2], t[3], t[4], t[5], t[6])
+    [] t[1] = "M" -> MCase(t[2], t[3], t[4], t[5])
 =============================================================================
